@@ -3,7 +3,7 @@
    compute_contracted / compute_flops, and what simplify_batch does to tracked flops.
    (owner: builder c18c20) *)
 From Coq Require Import Lia Permutation Sorted.
-From Ctg Require Import Base Net HGraph Simulators Compressed BaseFacts NetFacts.
+From Ctg Require Import Base Net HGraph Simulators Compressed BaseFacts NetFacts HGraphFacts.
 
 (* ------------------------------------------------------------------ *)
 (* generic helpers *)
@@ -516,3 +516,477 @@ Qed.
 Example reported_cost_fixed_on_witness :
   reported_flops_gen true witness_net [(0, 1)] = total_flops witness_net [] (Node (Leaf 0) (Leaf 1)).
 Proof. vm_compute. reflexivity. Qed.
+
+(* ------------------------------------------------------------------ *)
+(* the code as it is now (fix cd00d66: contract_nodes adds batch_factor * compute_flops):
+   the flops added by a contraction are the flops of the operands' ORIGINAL legs *)
+Definition drop_list (B : list nat) (l : plegs) : plegs := fold_left (fun l x => drop_ix x l) B l.
+
+Lemma nodup_keys_drop x l : NoDup (lkeys l) -> NoDup (lkeys (drop_ix x l)).
+Proof. intros H. rewrite lkeys_drop. apply NoDup_filter, H. Qed.
+Lemma in_keys_drop x l y : In y (lkeys (drop_ix x l)) <-> In y (lkeys l) /\ y <> x.
+Proof. rewrite lkeys_drop, filter_In, negb_true_iff, Nat.eqb_neq. tauto. Qed.
+
+Theorem batch_factor_restores_flops szs B : forall il jl, NoDup B -> NoDup (lkeys il) -> NoDup (lkeys jl) ->
+  (forall x, In x B -> In x (lkeys il) \/ In x (lkeys jl)) ->
+  (pprod szs B * pflops szs (drop_list B il) (drop_list B jl))%Z = pflops szs il jl.
+Proof.
+  induction B as [|x B IH]; intros il jl NB Ni Nj HB.
+  - unfold drop_list, pprod. cbn [fold_left map]. rewrite zprod_nil. lia.
+  - inversion NB as [|? ? Hx NB']; subst. unfold drop_list. cbn [fold_left]. fold (drop_list B (drop_ix x il)).
+    fold (drop_list B (drop_ix x jl)). rewrite pprod_cons.
+    rewrite (batch_removal_scales_flops szs x il jl Ni Nj).
+    assert (E : memb x (lkeys il) || memb x (lkeys jl) = true).
+    { apply orb_true_iff. rewrite !memb_In. apply HB. left; reflexivity. }
+    rewrite E.
+    rewrite <- (IH (drop_ix x il) (drop_ix x jl) NB' (nodup_keys_drop x il Ni) (nodup_keys_drop x jl Nj)).
+    + lia.
+    + intros y Hy. rewrite !in_keys_drop.
+      assert (y <> x) by (intros ->; contradiction).
+      destruct (HB y (or_intror Hy)); [left|right]; split; assumption.
+Qed.
+
+Lemma aget_adel_other {A} (i j : nat) (d : list (nat * A)) : j <> i -> aget j (adel i d) = aget j d.
+Proof.
+  intros H. induction d as [|[k v] d IH]; cbn; [reflexivity|].
+  destruct (Nat.eqb_spec k i) as [->|Hk].
+  - destruct (Nat.eqb_spec i j); [congruence|reflexivity].
+  - cbn. destruct (k =? j); [reflexivity|exact IH].
+Qed.
+
+Lemma proc_add_acc lg p : pflops_acc (fst (proc_add lg p)) = pflops_acc p /\ pszs (fst (proc_add lg p)) = pszs p.
+Proof. split; reflexivity. Qed.
+
+(* contract_nodes of the fixed code: flops += batch_factor * compute_flops(ilegs, jlegs) *)
+Lemma proc_pop_fields i p :
+  snd (proc_pop i p) = pget p i /\ pnodes (fst (proc_pop i p)) = adel i (pnodes p) /\
+  pszs (fst (proc_pop i p)) = pszs p /\ ptrack (fst (proc_pop i p)) = ptrack p /\
+  pflops_acc (fst (proc_pop i p)) = pflops_acc p /\ pbatch (fst (proc_pop i p)) = pbatch p /\
+  pfix (fst (proc_pop i p)) = pfix p.
+Proof. repeat split. Qed.
+
+Theorem fixed_contract_adds p i j : ptrack p = true -> pfix p = true -> i <> j ->
+  pflops_acc (fst (proc_contract i j p)) =
+  (pflops_acc p + pbatch p * pflops (pszs p) (pget p i) (pget p j))%Z.
+Proof.
+  intros Ht Hf Hij. unfold proc_contract.
+  pose proof (proc_pop_fields i p) as F1. destruct (proc_pop i p) as [p1 il]. cbn [fst snd] in F1.
+  destruct F1 as (Eil & En1 & Es1 & Et1 & Ea1 & Eb1 & Ef1).
+  pose proof (proc_pop_fields j p1) as F2. destruct (proc_pop j p1) as [p2 jl]. cbn [fst snd] in F2.
+  destruct F2 as (Ejl & En2 & Es2 & Et2 & Ea2 & Eb2 & Ef2).
+  assert (Ejl' : jl = pget p j).
+  { rewrite Ejl. unfold pget. rewrite En1. rewrite aget_adel_other by (intros E; apply Hij; symmetry; exact E). reflexivity. }
+  rewrite Et2, Et1, Ht, Ef2, Ef1, Hf.
+  match goal with |- context [proc_add ?lg ?q] =>
+    pose proof (proc_add_acc lg q) as F4; destruct (proc_add lg q) as [p4 k] end.
+  cbn [fst snd] in *. destruct F4 as [F4 _].
+  unfold proc_push_path. cbn [pflops_acc]. rewrite F4. unfold proc_add_flops. cbn [pflops_acc].
+  rewrite Ea2, Ea1, Eb2, Eb1, Es2, Es1, Eil, Ejl'. reflexivity.
+Qed.
+
+(* ... which is the product over the union of the operands' ORIGINAL indices whenever the
+   held legs are the originals minus the batch indices B and batch_factor = prod sizes(B) *)
+Theorem fixed_step_reports_original_flops p i j B il0 jl0 :
+  ptrack p = true -> pfix p = true -> i <> j ->
+  pbatch p = pprod (pszs p) B -> pget p i = drop_list B il0 -> pget p j = drop_list B jl0 ->
+  NoDup B -> NoDup (lkeys il0) -> NoDup (lkeys jl0) ->
+  (forall x, In x B -> In x (lkeys il0) \/ In x (lkeys jl0)) ->
+  pflops_acc (fst (proc_contract i j p)) = (pflops_acc p + pflops (pszs p) il0 jl0)%Z /\
+  pflops (pszs p) il0 jl0 = pprod (pszs p) (union_keys il0 jl0).
+Proof.
+  intros Ht Hf Hij Hb Hi Hj NB Ni Nj HB. split; [|apply pflops_is_union_product].
+  rewrite (fixed_contract_adds p i j Ht Hf Hij), Hb, Hi, Hj.
+  rewrite (batch_factor_restores_flops (pszs p) B il0 jl0 NB Ni Nj HB). reflexivity.
+Qed.
+
+(* simplify_batch establishes exactly those hypotheses, provided the edge map lists, for every
+   index, all the nodes that carry it (checked per run by proc_edges_ok_b) *)
+Definition pgetE (p : proc) (x : nat) : list nat := match aget x (pedges p) with Some l => l | None => [] end.
+Definition proc_edges_ok (p : proc) : Prop := forall x i, In x (lkeys (pget p i)) -> In i (pgetE p x).
+Definition proc_edges_ok_b (p : proc) : bool :=
+  forallb (fun it => forallb (fun kv => memb (fst it) (pgetE p (fst kv))) (snd it)) (pnodes p).
+
+Lemma aget_in {A} k (v : A) d : aget k d = Some v -> In (k, v) d.
+Proof.
+  induction d as [|[k' w] d IH]; cbn; [discriminate|].
+  destruct (Nat.eqb_spec k' k) as [->|]; [intros [= ->]; left; reflexivity|intros H; right; apply IH, H].
+Qed.
+
+Lemma proc_edges_ok_b_sound p : proc_edges_ok_b p = true -> proc_edges_ok p.
+Proof.
+  unfold proc_edges_ok_b, proc_edges_ok. rewrite forallb_forall. intros H x i Hx.
+  unfold pget in Hx. destruct (aget i (pnodes p)) as [l|] eqn:E; [|destruct Hx].
+  specialize (H (i, l) (aget_in _ _ _ E)). cbn [fst snd] in H. rewrite forallb_forall in H.
+  unfold lkeys in Hx. apply in_map_iff in Hx. destruct Hx as (kv & <- & Hkv).
+  apply memb_In. apply (H kv Hkv).
+Qed.
+
+Lemma aget_aset_same {A} k (v : A) d : aget k (aset k v d) = Some v.
+Proof.
+  induction d as [|[k' w] d IH]; cbn; [rewrite Nat.eqb_refl; reflexivity|].
+  destruct (Nat.eqb_spec k' k) as [->|Hk]; cbn; [rewrite Nat.eqb_refl; reflexivity|].
+  destruct (Nat.eqb_spec k' k); [contradiction|exact IH].
+Qed.
+Lemma aget_aset_other {A} k j (v : A) d : j <> k -> aget j (aset k v d) = aget j d.
+Proof.
+  intros H. induction d as [|[k' w] d IH]; cbn.
+  - destruct (Nat.eqb_spec k j); [congruence|reflexivity].
+  - destruct (Nat.eqb_spec k' k) as [->|Hk]; cbn.
+    + destruct (Nat.eqb_spec k j); [congruence|reflexivity].
+    + destruct (k' =? j); [reflexivity|exact IH].
+Qed.
+
+Lemma remove_ix_nodes_fold x (ks : list nat) : forall (nd : list (nat * plegs)) i,
+  match aget i (fold_left (fun nd node => match aget node nd with
+                                          | None => nd
+                                          | Some l => aset node (drop_ix x l) nd
+                                          end) ks nd) with Some l => l | None => [] end =
+  if memb i ks then drop_ix x (match aget i nd with Some l => l | None => [] end)
+  else match aget i nd with Some l => l | None => [] end.
+Proof.
+  induction ks as [|k ks IH]; intros nd i; cbn [fold_left memb existsb]; [reflexivity|].
+  rewrite IH. fold (memb i ks).
+  assert (Idem : forall l, drop_ix x (drop_ix x l) = drop_ix x l).
+  { intros l. unfold drop_ix. rewrite filter_filter_comm_and. apply filter_ext. intros kv. destruct (negb _); reflexivity. }
+  destruct (Nat.eqb_spec i k) as [->|Hik]; cbn [orb].
+  - destruct (aget k nd) as [l|] eqn:E.
+    + rewrite aget_aset_same. destruct (memb k ks); [apply Idem|reflexivity].
+    + rewrite E. destruct (memb k ks); reflexivity.
+  - destruct (aget k nd) as [l|] eqn:E; [rewrite (aget_aset_other k i) by exact Hik|]; reflexivity.
+Qed.
+
+Lemma proc_remove_ix_get x p i : proc_edges_ok p -> pget (proc_remove_ix x p) i = drop_ix x (pget p i).
+Proof.
+  intros Hok.
+  transitivity (if memb i (pgetE p x) then drop_ix x (pget p i) else pget p i).
+  - exact (remove_ix_nodes_fold x (pgetE p x) (pnodes p) i).
+  - destruct (memb i (pgetE p x)) eqn:E; [reflexivity|].
+    symmetry. apply drop_ix_notin. intros Hin. apply Hok in Hin. apply memb_false in E. contradiction.
+Qed.
+
+Lemma proc_remove_ix_ok x p : proc_edges_ok p -> proc_edges_ok (proc_remove_ix x p).
+Proof.
+  intros Hok y i Hy. rewrite (proc_remove_ix_get x p i Hok), in_keys_drop in Hy. destruct Hy as [Hy Hne].
+  unfold pgetE, proc_remove_ix. cbn [pedges]. rewrite aget_adel_other by exact Hne. apply Hok, Hy.
+Qed.
+
+Theorem simplify_batch_spec p : proc_edges_ok p ->
+  let B := batch_indices p in
+  (forall i, pget (proc_simplify_batch p) i = drop_list B (pget p i)) /\
+  pbatch (proc_simplify_batch p) = (pbatch p * pprod (pszs p) B)%Z /\
+  pszs (proc_simplify_batch p) = pszs p /\ pflops_acc (proc_simplify_batch p) = pflops_acc p /\
+  ptrack (proc_simplify_batch p) = ptrack p /\ pfix (proc_simplify_batch p) = pfix p.
+Proof.
+  intros Hok. cbn zeta. unfold proc_simplify_batch. generalize (batch_indices p) as B. intros B. revert p Hok.
+  induction B as [|x B IH]; intros p Hok; cbn [fold_left].
+  - repeat split. unfold pprod. cbn. lia.
+  - assert (Hok1 : proc_edges_ok (proc_scale_batch x p)) by exact Hok.
+    destruct (IH (proc_remove_ix x (proc_scale_batch x p)) (proc_remove_ix_ok x _ Hok1)) as (G1 & G2 & G3 & G4 & G5 & G6).
+    repeat split.
+    + intros i. rewrite G1, (proc_remove_ix_get x _ i Hok1). reflexivity.
+    + rewrite G2. unfold proc_remove_ix, proc_scale_batch. cbn [pbatch pszs]. rewrite pprod_cons. lia.
+    + rewrite G3. reflexivity.
+    + rewrite G4. reflexivity.
+    + rewrite G5. reflexivity.
+    + rewrite G6. reflexivity.
+Qed.
+
+(* ------------------------------------------------------------------ *)
+(* run level: with batch_factor, a run after simplify_batch reports the same flops as the same
+   run without simplify_batch (legs are the originals minus B at every step) *)
+Lemma pcontract_sorted ap il : forall jl, ssorted il -> ssorted jl -> ssorted (pcontract ap il jl).
+Proof.
+  induction il as [|[i ic] il IHi]; intros jl Si Sj.
+  - rewrite pc_nil_l. exact Sj.
+  - induction jl as [|[j jc] jl IHj].
+    + rewrite pc_nil_r. exact Si.
+    + rewrite pc_cons. destruct (Nat.ltb_spec i j) as [Hij|Hij]; [|destruct (Nat.ltb_spec j i) as [Hji|Hji]].
+      * apply sorted_cons_intro; [apply IHi; [apply (ssorted_tail _ _ Si)|exact Sj]|].
+        intros q Hq. apply pcontract_keys in Hq. destruct Hq as [Hq|Hq].
+        -- apply (ssorted_head_lt i ic il q Si Hq).
+        -- rewrite lkeys_cons in Hq. destruct Hq as [<-|Hq]; [exact Hij|].
+           pose proof (ssorted_head_lt j jc jl q Sj Hq). lia.
+      * apply sorted_cons_intro; [apply IHj, (ssorted_tail _ _ Sj)|].
+        intros q Hq. apply pcontract_keys in Hq. destruct Hq as [Hq|Hq].
+        -- rewrite lkeys_cons in Hq. destruct Hq as [<-|Hq]; [exact Hji|].
+           pose proof (ssorted_head_lt i ic il q Si Hq). lia.
+        -- apply (ssorted_head_lt j jc jl q Sj Hq).
+      * assert (i = j) by lia. subst j.
+        assert (Hlt : forall q, In q (lkeys (pcontract ap il jl)) -> i < q).
+        { intros q Hq. apply pcontract_keys in Hq. destruct Hq as [Hq|Hq];
+            [apply (ssorted_head_lt i ic il q Si Hq)|apply (ssorted_head_lt i jc jl q Sj Hq)]. }
+        pose proof (IHi jl (ssorted_tail _ _ Si) (ssorted_tail _ _ Sj)) as S'.
+        destruct (ic + jc =? papp_of ap i); cbn [Datatypes.app]; [exact S'|apply sorted_cons_intro; assumption].
+Qed.
+
+Lemma drop_ix_cons x k c l : drop_ix x ((k, c) :: l) = if Nat.eqb k x then drop_ix x l else (k, c) :: drop_ix x l.
+Proof. unfold drop_ix. cbn [filter fst]. destruct (k =? x); reflexivity. Qed.
+Lemma drop_ix_app x l1 l2 : drop_ix x (l1 ++ l2) = drop_ix x l1 ++ drop_ix x l2.
+Proof. unfold drop_ix. apply filter_app. Qed.
+Lemma drop_ix_sorted x l : ssorted l -> ssorted (drop_ix x l).
+Proof.
+  unfold ssorted. rewrite lkeys_drop. generalize (lkeys l) as ks. intros ks H.
+  induction H as [|k ks Hs IH Hf]; cbn [filter]; [constructor|].
+  destruct (negb (k =? x)); [|exact IH]. constructor; [exact IH|].
+  rewrite Forall_forall in *. intros y Hy. apply filter_In in Hy. apply Hf, Hy.
+Qed.
+
+Lemma pc_head_lt ap i ic il jl : (forall q, In q (lkeys jl) -> i < q) ->
+  pcontract ap ((i, ic) :: il) jl = (i, ic) :: pcontract ap il jl.
+Proof.
+  intros H. destruct jl as [|[j jc] jl]; [rewrite !pc_nil_r; reflexivity|].
+  rewrite pc_cons. assert (i < j) by (apply H; left; reflexivity).
+  destruct (Nat.ltb_spec i j); [reflexivity|lia].
+Qed.
+Lemma pc_head_gt ap j jc il jl : (forall q, In q (lkeys il) -> j < q) ->
+  pcontract ap il ((j, jc) :: jl) = (j, jc) :: pcontract ap il jl.
+Proof.
+  intros H. destruct il as [|[i ic] il]; [rewrite !pc_nil_l; reflexivity|].
+  rewrite pc_cons. assert (j < i) by (apply H; left; reflexivity).
+  destruct (Nat.ltb_spec i j); [lia|]. destruct (Nat.ltb_spec j i); [reflexivity|lia].
+Qed.
+
+Lemma pcontract_drop ap x il : forall jl, ssorted il -> ssorted jl ->
+  pcontract ap (drop_ix x il) (drop_ix x jl) = drop_ix x (pcontract ap il jl).
+Proof.
+  induction il as [|[i ic] il IHi]; intros jl Si Sj.
+  - cbn [drop_ix filter]. rewrite !pc_nil_l. reflexivity.
+  - induction jl as [|[j jc] jl IHj].
+    + unfold drop_ix at 2. cbn [filter]. rewrite !pc_nil_r. reflexivity.
+    + pose proof (ssorted_tail _ _ Si) as Si'. pose proof (ssorted_tail _ _ Sj) as Sj'.
+      rewrite pc_cons. destruct (Nat.ltb_spec i j) as [Hij|Hij]; [|destruct (Nat.ltb_spec j i) as [Hji|Hji]].
+      * rewrite (drop_ix_cons x i ic il), (drop_ix_cons x i ic (pcontract ap il ((j, jc) :: jl))).
+        destruct (Nat.eqb_spec i x) as [->|Hix].
+        -- apply IHi; assumption.
+        -- rewrite pc_head_lt; [f_equal; apply IHi; assumption|].
+           intros q Hq. apply in_keys_drop in Hq. destruct Hq as [Hq _]. rewrite lkeys_cons in Hq.
+           destruct Hq as [<-|Hq]; [exact Hij|]. pose proof (ssorted_head_lt j jc jl q Sj Hq). lia.
+      * rewrite (drop_ix_cons x j jc jl), (drop_ix_cons x j jc (pcontract ap ((i, ic) :: il) jl)).
+        destruct (Nat.eqb_spec j x) as [->|Hjx].
+        -- apply IHj; assumption.
+        -- rewrite pc_head_gt; [f_equal; apply IHj; assumption|].
+           intros q Hq. apply in_keys_drop in Hq. destruct Hq as [Hq _]. rewrite lkeys_cons in Hq.
+           destruct Hq as [<-|Hq]; [exact Hji|]. pose proof (ssorted_head_lt i ic il q Si Hq). lia.
+      * assert (i = j) by lia. subst j. rewrite drop_ix_app.
+        rewrite (drop_ix_cons x i ic il), (drop_ix_cons x i jc jl).
+        destruct (Nat.eqb_spec i x) as [->|Hix].
+        -- rewrite IHi by assumption.
+           destruct (ic + jc =? papp_of ap x); cbn [drop_ix filter fst Datatypes.app]; [reflexivity|].
+           rewrite Nat.eqb_refl. cbn [negb]. reflexivity.
+        -- rewrite pc_cons. destruct (Nat.ltb_spec i i); [lia|]. rewrite IHi by assumption. f_equal.
+           destruct (ic + jc =? papp_of ap i); [reflexivity|]. cbn [drop_ix filter fst].
+           destruct (Nat.eqb_spec i x); [contradiction|reflexivity].
+Qed.
+
+Lemma drop_list_sorted B : forall l, ssorted l -> ssorted (drop_list B l).
+Proof. induction B as [|x B IH]; intros l H; [exact H|]. apply (IH (drop_ix x l)), drop_ix_sorted, H. Qed.
+
+Lemma pcontract_drop_list ap B : forall il jl, ssorted il -> ssorted jl ->
+  pcontract ap (drop_list B il) (drop_list B jl) = drop_list B (pcontract ap il jl).
+Proof.
+  induction B as [|x B IH]; intros il jl Si Sj; [reflexivity|].
+  unfold drop_list. cbn [fold_left]. fold (drop_list B (drop_ix x il)) (drop_list B (drop_ix x jl)).
+  fold (drop_list B (drop_ix x (pcontract ap il jl))).
+  rewrite IH by (apply drop_ix_sorted; assumption). rewrite pcontract_drop by assumption. reflexivity.
+Qed.
+
+Lemma proc_pop_fields2 i p :
+  snd (proc_pop i p) = pget p i /\ pnodes (fst (proc_pop i p)) = adel i (pnodes p) /\
+  pszs (fst (proc_pop i p)) = pszs p /\ ptrack (fst (proc_pop i p)) = ptrack p /\
+  pbatch (fst (proc_pop i p)) = pbatch p /\ pfix (fst (proc_pop i p)) = pfix p /\
+  papp (fst (proc_pop i p)) = papp p /\ pssa (fst (proc_pop i p)) = pssa p.
+Proof. repeat split. Qed.
+Lemma proc_add_fields lg p :
+  pnodes (fst (proc_add lg p)) = aset (pssa p) lg (pnodes p) /\ pssa (fst (proc_add lg p)) = S (pssa p) /\
+  pszs (fst (proc_add lg p)) = pszs p /\ ptrack (fst (proc_add lg p)) = ptrack p /\
+  pbatch (fst (proc_add lg p)) = pbatch p /\ pfix (fst (proc_add lg p)) = pfix p /\
+  papp (fst (proc_add lg p)) = papp p.
+Proof. repeat split. Qed.
+Lemma proc_flops_fields (b : bool) f p :
+  let q := if b then proc_add_flops f p else p in
+  pnodes q = pnodes p /\ pssa q = pssa p /\ pszs q = pszs p /\ ptrack q = ptrack p /\
+  pbatch q = pbatch p /\ pfix q = pfix p /\ papp q = papp p.
+Proof. destruct b; repeat split. Qed.
+
+Lemma proc_contract_fields p i j : i <> j -> NoDup (akeys (pnodes p)) ->
+  let p' := fst (proc_contract i j p) in
+  (forall q, pget p' q = if Nat.eqb q (pssa p) then pcontract (papp p) (pget p i) (pget p j)
+                         else if Nat.eqb q i || Nat.eqb q j then [] else pget p q) /\
+  NoDup (akeys (pnodes p')) /\ pssa p' = S (pssa p) /\ papp p' = papp p /\ pszs p' = pszs p /\
+  ptrack p' = ptrack p /\ pfix p' = pfix p /\ pbatch p' = pbatch p.
+Proof.
+  intros Hij ND. unfold proc_contract.
+  pose proof (proc_pop_fields2 i p) as F1. destruct (proc_pop i p) as [p1 il]. cbn [fst snd] in F1.
+  destruct F1 as (Eil & En1 & Es1 & Et1 & Eb1 & Ef1 & Ea1 & Ex1).
+  pose proof (proc_pop_fields2 j p1) as F2. destruct (proc_pop j p1) as [p2 jl]. cbn [fst snd] in F2.
+  destruct F2 as (Ejl & En2 & Es2 & Et2 & Eb2 & Ef2 & Ea2 & Ex2).
+  assert (Ejl' : jl = pget p j).
+  { rewrite Ejl. unfold pget. rewrite En1. rewrite d_get_del_ne by (intros E; apply Hij; symmetry; exact E). reflexivity. }
+  match goal with |- context [if ptrack p2 then proc_add_flops ?f p2 else p2] =>
+    pose proof (proc_flops_fields (ptrack p2) f p2) as F3; cbn zeta in F3;
+    set (p3 := if ptrack p2 then proc_add_flops f p2 else p2) in * end.
+  destruct F3 as (En3 & Ex3 & Es3 & Et3 & Eb3 & Ef3 & Ea3).
+  match goal with |- context [proc_add ?lg p3] =>
+    pose proof (proc_add_fields lg p3) as F4; destruct (proc_add lg p3) as [p4 k] end.
+  cbn [fst snd] in *. destruct F4 as (En4 & Ex4 & Es4 & Et4 & Eb4 & Ef4 & Ea4).
+  cbn zeta. unfold proc_push_path. cbn [pnodes pssa papp pszs ptrack pfix pbatch].
+  assert (Enodes : pnodes p4 = aset (pssa p) (pcontract (papp p) (pget p i) (pget p j)) (adel j (adel i (pnodes p)))).
+  { rewrite En4, En3, En2, En1, Ex3, Ex2, Ex1, Ea3, Ea2, Ea1, Eil, Ejl'. reflexivity. }
+  split; [|split; [rewrite Enodes; apply d_nodup_set, d_nodup_del, d_nodup_del, ND|]].
+  - intros q. unfold pget at 1. cbn [pnodes]. rewrite Enodes, d_get_set.
+    destruct (q =? pssa p); [reflexivity|].
+    destruct (Nat.eqb_spec q j) as [->|Hqj]; [rewrite orb_true_r, d_get_del_eq by (apply d_nodup_del, ND); reflexivity|].
+    rewrite d_get_del_ne by exact Hqj.
+    destruct (Nat.eqb_spec q i) as [->|Hqi]; [rewrite d_get_del_eq by exact ND; reflexivity|].
+    rewrite d_get_del_ne by exact Hqi. reflexivity.
+  - repeat split; congruence.
+Qed.
+
+Lemma drop_list_nil B : drop_list B [] = [].
+Proof. induction B as [|x B IH]; [reflexivity|]. exact IH. Qed.
+
+Record BRel (B : list nat) (p1 p2 : proc) : Prop := {
+  br_app : papp p2 = papp p1; br_szs : pszs p2 = pszs p1; br_ssa : pssa p2 = pssa p1;
+  br_nd1 : NoDup (akeys (pnodes p1)); br_nd2 : NoDup (akeys (pnodes p2));
+  br_get : forall q, pget p2 q = drop_list B (pget p1 q);
+  br_sorted : forall q, ssorted (pget p1 q);
+  br_t1 : ptrack p1 = true; br_t2 : ptrack p2 = true; br_f1 : pfix p1 = true; br_f2 : pfix p2 = true;
+  br_b1 : pbatch p1 = 1%Z; br_b2 : pbatch p2 = pprod (pszs p2) B
+}.
+
+Lemma brel_step B p1 p2 i j : BRel B p1 p2 -> NoDup B -> i <> j ->
+  (forall x, In x B -> In x (lkeys (pget p1 i)) \/ In x (lkeys (pget p1 j))) ->
+  BRel B (fst (proc_contract i j p1)) (fst (proc_contract i j p2)) /\
+  (pflops_acc (fst (proc_contract i j p2)) - pflops_acc p2 =
+   pflops_acc (fst (proc_contract i j p1)) - pflops_acc p1)%Z.
+Proof.
+  intros R NB Hij HB.
+  destruct (proc_contract_fields p1 i j Hij (br_nd1 B p1 p2 R)) as (G1 & N1 & X1 & A1 & S1 & T1 & F1 & B1).
+  destruct (proc_contract_fields p2 i j Hij (br_nd2 B p1 p2 R)) as (G2 & N2 & X2 & A2 & S2 & T2 & F2 & B2).
+  cbn zeta in *.
+  pose proof (br_sorted B p1 p2 R i) as Si. pose proof (br_sorted B p1 p2 R j) as Sj.
+  split.
+  - constructor; try congruence.
+    + rewrite A2, A1. apply (br_app B p1 p2 R).
+    + rewrite S2, S1. apply (br_szs B p1 p2 R).
+    + rewrite X2, X1, (br_ssa B p1 p2 R). reflexivity.
+    + intros q. rewrite G2, G1, (br_ssa B p1 p2 R), (br_app B p1 p2 R), !(br_get B p1 p2 R).
+      destruct (q =? pssa p1); [apply pcontract_drop_list; assumption|].
+      destruct ((q =? i) || (q =? j)); [symmetry; apply drop_list_nil|reflexivity].
+    + intros q. rewrite G1. destruct (q =? pssa p1); [apply pcontract_sorted; assumption|].
+      destruct ((q =? i) || (q =? j)); [constructor|apply (br_sorted B p1 p2 R)].
+    + rewrite T1. apply (br_t1 B p1 p2 R).
+    + rewrite T2. apply (br_t2 B p1 p2 R).
+    + rewrite F1. apply (br_f1 B p1 p2 R).
+    + rewrite F2. apply (br_f2 B p1 p2 R).
+    + rewrite B1. apply (br_b1 B p1 p2 R).
+    + rewrite B2, S2. apply (br_b2 B p1 p2 R).
+  - rewrite (fixed_contract_adds p1 i j (br_t1 B p1 p2 R) (br_f1 B p1 p2 R) Hij).
+    rewrite (fixed_contract_adds p2 i j (br_t2 B p1 p2 R) (br_f2 B p1 p2 R) Hij).
+    rewrite (br_b1 B p1 p2 R), (br_b2 B p1 p2 R), !(br_get B p1 p2 R), (br_szs B p1 p2 R).
+    rewrite (batch_factor_restores_flops (pszs p1) B (pget p1 i) (pget p1 j) NB (ssorted_nodup _ Si) (ssorted_nodup _ Sj) HB).
+    lia.
+Qed.
+
+(* every batch index sits on one of the two operands, at every step of the unsimplified run *)
+Fixpoint present_b (B : list nat) (p1 : proc) (path : list (nat * nat)) : bool :=
+  match path with
+  | [] => true
+  | (i, j) :: path' =>
+      negb (Nat.eqb i j) &&
+      forallb (fun x => memb x (lkeys (pget p1 i)) || memb x (lkeys (pget p1 j))) B &&
+      present_b B (fst (proc_contract i j p1)) path'
+  end.
+
+Definition run_path (p : proc) (path : list (nat * nat)) : proc :=
+  proc_run p (map (fun ij => OpContract (fst ij) (snd ij)) path).
+
+Theorem brel_run B path : forall p1 p2, BRel B p1 p2 -> NoDup B -> present_b B p1 path = true ->
+  (pflops_acc (run_path p2 path) - pflops_acc p2 = pflops_acc (run_path p1 path) - pflops_acc p1)%Z.
+Proof.
+  induction path as [|[i j] path IH]; intros p1 p2 R NB Hp; [unfold run_path; cbn; lia|].
+  cbn [present_b] in Hp. apply andb_true_iff in Hp. destruct Hp as [Hp Hrest]. apply andb_true_iff in Hp.
+  destruct Hp as [Hij HB]. apply negb_true_iff, Nat.eqb_neq in Hij. rewrite forallb_forall in HB.
+  assert (HB' : forall x, In x B -> In x (lkeys (pget p1 i)) \/ In x (lkeys (pget p1 j))).
+  { intros x Hx. specialize (HB x Hx). apply orb_true_iff in HB. rewrite !memb_In in HB. exact HB. }
+  destruct (brel_step B p1 p2 i j R NB Hij HB') as [R' E].
+  specialize (IH _ _ R' NB Hrest).
+  unfold run_path in *. cbn [map fst snd proc_run fold_left proc_step] in *. unfold proc_run in *. lia.
+Qed.
+
+(* simplify_batch keeps the node identifiers *)
+Lemma remove_ix_keys x p : akeys (pnodes (proc_remove_ix x p)) = akeys (pnodes p).
+Proof.
+  unfold proc_remove_ix. cbn [pnodes]. generalize (match aget x (pedges p) with Some l => l | None => [] end) as ks.
+  intros ks. generalize (pnodes p) as nd. unfold plegs. induction ks as [|k ks IH]; intros nd; cbn [fold_left]; [reflexivity|].
+  rewrite IH. destruct (aget k nd) as [l|] eqn:E; [|reflexivity].
+  apply d_keys_set_in. destruct (in_dec Nat.eq_dec k (akeys nd)) as [H|H]; [exact H|]. apply d_get_none in H. congruence.
+Qed.
+Lemma simplify_batch_keys p : akeys (pnodes (proc_simplify_batch p)) = akeys (pnodes p).
+Proof.
+  unfold proc_simplify_batch. generalize (batch_indices p) as B. intros B. revert p.
+  induction B as [|x B IH]; intros p; cbn [fold_left]; [reflexivity|]. rewrite IH, remove_ix_keys. reflexivity.
+Qed.
+
+(* the code as it is now: after simplify_batch the reported flops of any run are those the same
+   run reports without simplify_batch, i.e. with every operand's full legs *)
+Theorem fixed_run_eq_unsimplified p path :
+  ptrack p = true -> pfix p = true -> pbatch p = 1%Z -> proc_edges_ok p ->
+  NoDup (akeys (pnodes p)) -> (forall q, ssorted (pget p q)) -> NoDup (batch_indices p) ->
+  present_b (batch_indices p) p path = true ->
+  (pflops_acc (run_path (proc_simplify_batch p) path) - pflops_acc p =
+   pflops_acc (run_path p path) - pflops_acc p)%Z.
+Proof.
+  intros Ht Hf Hb Hok ND Hs NB Hp.
+  destruct (simplify_batch_spec p Hok) as (G & Bf & Sz & Ac & Tr & Fx). cbn zeta in *.
+  assert (R : BRel (batch_indices p) p (proc_simplify_batch p)).
+  { constructor; try assumption; try congruence.
+    - clear. unfold proc_simplify_batch. generalize (batch_indices p). intros B. revert p.
+      induction B as [|x B IH]; intros p; cbn [fold_left]; [reflexivity|]. rewrite IH. reflexivity.
+    - clear. unfold proc_simplify_batch. generalize (batch_indices p). intros B. revert p.
+      induction B as [|x B IH]; intros p; cbn [fold_left]; [reflexivity|]. rewrite IH. reflexivity.
+    - rewrite simplify_batch_keys. exact ND.
+    - rewrite Bf, Hb, Sz. lia. }
+  pose proof (brel_run (batch_indices p) path p (proc_simplify_batch p) R NB Hp) as E.
+  rewrite Ac in E. exact E.
+Qed.
+
+(* boolean form of the structural hypotheses, evaluated per run *)
+Fixpoint ssorted_from_b (lo : nat) (l : plegs) : bool :=
+  match l with
+  | [] => true
+  | (k, _) :: l' => Nat.ltb lo k && ssorted_from_b k l'
+  end.
+Definition ssorted_b (l : plegs) : bool :=
+  match l with [] => true | (k, _) :: l' => ssorted_from_b k l' end.
+
+Lemma ssorted_from_b_sound l : forall lo, ssorted_from_b lo l = true ->
+  ssorted l /\ forall q, In q (lkeys l) -> lo < q.
+Proof.
+  induction l as [|[k c] l IH]; intros lo H; cbn in H.
+  - split; [constructor|intros q []].
+  - apply andb_true_iff in H. destruct H as [H1 H2]. apply Nat.ltb_lt in H1. destruct (IH k H2) as [S Hq].
+    split; [apply sorted_cons_intro; assumption|].
+    intros q. rewrite lkeys_cons. intros [<-|Hin]; [exact H1|]. specialize (Hq q Hin). lia.
+Qed.
+Lemma ssorted_b_sound l : ssorted_b l = true -> ssorted l.
+Proof.
+  destruct l as [|[k c] l]; intros H; [constructor|]. cbn in H. destruct (ssorted_from_b_sound l k H) as [S Hq].
+  apply sorted_cons_intro; assumption.
+Qed.
+
+Definition proc_ok_b (p : proc) : bool :=
+  ptrack p && pfix p && Z.eqb (pbatch p) 1 && proc_edges_ok_b p && nodup_nat_b (akeys (pnodes p)) &&
+  forallb (fun it => ssorted_b (snd it)) (pnodes p) && nodup_nat_b (batch_indices p).
+
+Theorem fixed_run_eq_unsimplified_checked p path :
+  proc_ok_b p = true -> present_b (batch_indices p) p path = true ->
+  pflops_acc (run_path (proc_simplify_batch p) path) = pflops_acc (run_path p path).
+Proof.
+  unfold proc_ok_b. rewrite !andb_true_iff. intros [[[[[[Ht Hf] Hb] He] Hn] Hs] Hnb] Hp.
+  apply Z.eqb_eq in Hb. apply proc_edges_ok_b_sound in He. apply nodup_nat_b_sound in Hn. apply nodup_nat_b_sound in Hnb.
+  assert (Hs' : forall q, ssorted (pget p q)).
+  { intros q. unfold pget. destruct (aget q (pnodes p)) as [l|] eqn:E; [|constructor].
+    rewrite forallb_forall in Hs. apply ssorted_b_sound. apply (Hs (q, l) (d_get_in _ _ _ E)). }
+  pose proof (fixed_run_eq_unsimplified p path Ht Hf Hb He Hn Hs' Hnb Hp). lia.
+Qed.
